@@ -205,21 +205,41 @@ fn matches(res: &impl Resolve, at: PlainRef, got: &Primitive, w: &WV) -> Result<
                 if d.get("Type").and_then(|t| t.as_name().ok()) != Some("Page") {
                     return Err(format!("wrote a page, read {}", short(got)));
                 }
-                let c = match d.get("Contents") {
-                    Some(Primitive::Reference(c)) => *c,
+                // one reference, or an array of references (a content stream is always an indirect object)
+                let parts: Vec<PlainRef> = match d.get("Contents") {
+                    Some(Primitive::Reference(c)) => vec![*c],
+                    Some(Primitive::Array(a)) => {
+                        let mut v = vec![];
+                        for x in a {
+                            match x {
+                                Primitive::Reference(c) => v.push(*c),
+                                other => return Err(format!("page /Contents holds {} instead of a reference to a stream", short(other).chars().take(30).collect::<String>())),
+                            }
+                        }
+                        v
+                    }
                     other => return Err(format!("page /Contents is {:?}", other.map(short))),
                 };
-                if c.id == at.id {
-                    return Err("page /Contents refers to the page object itself".into());
+                let c = match parts.first() {
+                    Some(c) => *c,
+                    None => return Err("page /Contents is empty".into()),
+                };
+                let mut all = vec![];
+                for c in &parts {
+                    if c.id == at.id {
+                        return Err("page /Contents refers to the page object itself".into());
+                    }
+                    match res.resolve(*c) {
+                        Ok(Primitive::Stream(s)) => match s.raw_data(res) {
+                            Ok(data) => all.extend_from_slice(&data),
+                            Err(e) => return Err(format!("page content: {}", error_kind(&e))),
+                        },
+                        Ok(p) => return Err(format!("page /Contents resolves to {}", short(&p))),
+                        Err(e) => return Err(format!("page /Contents fails to resolve: {}", error_kind(&e))),
+                    }
                 }
-                match res.resolve(c) {
-                    Ok(Primitive::Stream(s)) => match s.raw_data(res) {
-                        Ok(data) if &data[..] == &content[..] => {}
-                        Ok(data) => return Err(format!("page content: wrote {} bytes, read {} bytes", content.len(), data.len())),
-                        Err(e) => return Err(format!("page content: {}", error_kind(&e))),
-                    },
-                    Ok(p) => return Err(format!("page /Contents resolves to {}", short(&p))),
-                    Err(e) => return Err(format!("page /Contents fails to resolve: {}", error_kind(&e))),
+                if &all[..] != &content[..] {
+                    return Err(format!("page content: wrote {} bytes, read {} bytes in {} part(s)", content.len(), all.len(), parts.len()));
                 }
                 let want_box = Primitive::Array(page_box(content).iter().map(|&x| Primitive::Number(x)).collect());
                 match d.get("MediaBox") {
@@ -398,7 +418,14 @@ impl<'a> Exec<'a> {
                 return Ok(());
             }
             let mut page = Page::new(self.file.trailer.root.pages.clone());
-            page.contents = Some(pdf::content::Content { parts: vec![Stream::new((), content.clone())] });
+            // one page in three has its content in two parts
+            let parts = if content.len() % 3 == 0 && content.len() >= 2 {
+                let (a, b) = content.split_at(content.len() / 2);
+                vec![Stream::new((), a.to_vec()), Stream::new((), b.to_vec())]
+            } else {
+                vec![Stream::new((), content.clone())]
+            };
+            page.contents = Some(pdf::content::Content { parts });
             page.resources = Some(MaybeRef::Direct(std::sync::Arc::new(Resources::default())));
             let mb = page_box(content);
             page.media_box = Some(Rectangle { left: mb[0], bottom: mb[1], right: mb[2], top: mb[3] });
